@@ -4,7 +4,8 @@
 # /verif/seeded/<Cxx>-<x>/ and runs the given checks (default: the property's own) against it.
 set -u
 P="$1"; X="$2"; shift 2
-CHECKS="${*:-$P}"
+PROP="${P/H/C}"
+CHECKS="${*:-$PROP}"
 WT=/tmp/wt/$P
 D=$WT/seeded
 OUT=/verif/seeded/$P-$X
@@ -38,7 +39,8 @@ done
 python3 - "$P" "$X" "$OUT" "$SUITE" "$SUITEF" "$DEMO_WITH" "$DEMO_WITHOUT" "$RES" <<'PY'
 import sys, json
 p,x,out,suite,suitef,dw,dwo,res=sys.argv[1:9]
-json.dump({"property":p,"variant":x,"source":"independent sub-agent given only the property text and a scratch worktree",
+hard=p.startswith("H"); p=p.replace("H","C")
+json.dump({"property":p,"round":("2 (hard mode: size thresholds / conjunctions / long histories)" if hard else "1"),"variant":x,"source":"independent sub-agent given only the property text and a scratch worktree",
  "existing_suite_with_change":suite,"existing_suite_with_change_all_features":suitef,
  "demo_with_change":dw.strip(),"demo_without_change":dwo.strip(),"checks_run":res.strip(),
  "needs_to_manifest":"see NOTES.md (written by the sub-agent)"}, open(out+"/meta.json","w"), indent=1)
